@@ -150,6 +150,46 @@ func skeleton(fd *ast.FuncDecl) []string {
 	return out
 }
 
+// runParts: the actions (armActs) of App.Run's statements before its `for` loop, and of the select
+// arm that waits on time.After (the frame step). Anything not found degrades to ["?missing"].
+func runParts(fd *ast.FuncDecl) (pro, frame []string) {
+	missing := []string{ex.LeanStr("?missing")}
+	if fd == nil || fd.Body == nil {
+		return missing, missing
+	}
+	var before []ast.Stmt
+	for _, st := range fd.Body.List {
+		if _, ok := st.(*ast.ForStmt); ok {
+			break
+		}
+		before = append(before, st)
+	}
+	for _, a := range armActs(before) {
+		pro = append(pro, ex.LeanStr(a))
+	}
+	found := false
+	ast.Inspect(fd.Body, func(n ast.Node) bool {
+		cc, ok := n.(*ast.CommClause)
+		if !ok || found || cc.Comm == nil {
+			return true
+		}
+		if strings.Contains(show(cc.Comm), "time.After") {
+			found = true
+			for _, a := range armActs(cc.Body) {
+				frame = append(frame, ex.LeanStr(a))
+			}
+		}
+		return true
+	})
+	if !found {
+		frame = missing
+	}
+	if len(pro) == 0 {
+		pro = missing
+	}
+	return pro, frame
+}
+
 func main() { ex.Main([]string{"VxfwCases.lean", "VxfwBodies.lean"}, gen) }
 
 func gen(c *ex.Ctx) {
@@ -228,6 +268,11 @@ func gen(c *ex.Ctx) {
 		b.WriteString("\n")
 	}
 	b.WriteString("]\n\n")
+	// App.Run outside the event switch: what it does before the loop, and the timer arm of the select
+	// (the frame step) — field assignments and method calls in source order (as for the arms).
+	pro, frame := runParts(ex.FindFunc(f, "App", "Run"))
+	b.WriteString("def runPrologueActs : List String := [" + strings.Join(pro, ", ") + "]\n\n")
+	b.WriteString("def runFrameActs : List String := [" + strings.Join(frame, ", ") + "]\n\n")
 	b.WriteString("end VaxisModel.Gen.VxfwCases\n")
 	c.Write("VxfwCases.lean", b.String())
 }
